@@ -12,8 +12,8 @@ from pyscript import Op
 
 def gen_jobs(tier, tag):
     r = rng(tag)
-    n_b = 1500 if tier == 'quick' else 40000
-    n_n = 600 if tier == 'quick' else 10000
+    n_b = 1500 if tier == 'quick' else 20000
+    n_n = 600 if tier == 'quick' else 6000
     jobs, metas = [], []
     for i in range(n_b + n_n):
         benign = i < n_b
@@ -69,7 +69,7 @@ def run(v, tier, st, pr, pid):
         script = [repr(x) for x in ops] + (['<then %s of the database, original dropped>' % variant] if variant else [])
         if o['read_error']:
             stats['read_errors'] += 1
-            if pid == 'C03':
+            if pid == o.get('read_error_owner', 'C03'):
                 fails.append({'cause': 'oracle', 'clause': 'emitted SQL is not readable as the DDL the property describes',
                               'input': {'kind': 'script', 'ops': script}, 'detail': o['read_error']})
             continue
@@ -102,7 +102,7 @@ def run(v, tier, st, pr, pid):
     # database built through the API from the document's abstract description
     if pid in ('C03', 'C04'):
         import docsql
-        djobs = docsql.gen_jobs(400 if tier == 'quick' else 8000, 'docsql-' + pid)
+        djobs = docsql.gen_jobs(400 if tier == 'quick' else 3000, 'docsql-' + pid)
         with ctx.Pool(NPROC) as pool:
             douts = pool.map(docsql.check_doc, djobs, chunksize=max(1, len(djobs) // (NPROC * 8)))
         stats['documents_read_back'] = sum(1 for o in douts if 'skip' not in o)
